@@ -1,8 +1,83 @@
 import Genshi.Wire
+import Genshi.Model.Match
+import Genshi.Model.MatchPath
 namespace Driver.C12
-open Genshi
+open Genshi Genshi.Match Genshi.Sexp
 
-/-- stub: the model driver for C12 is not built yet -/
-def handle : List Sexp → Option Sexp := fun _ => none
+/-
+  C12 run <fuel> ( item … )
+     item := ( S name ) | ( E name ) | ( T text )
+           | ( REG spec ( bitem … ) buffered once recursive )
+     spec := ( one name|N pos|N ) | ( chain ( ( name … ) … ) )
+     bitem := ( S name ) | ( E name ) | ( T text ) | ( SEL dot|node|elems|text|nodeText ) | ( SEL named name )
+  answer: ( ok ( event … ) ) | unmodelled | ( err fuel )
+-/
+
+def ev? : Sexp → Option Event
+  | .list [.atom "S", .str n] => some (.start ⟨[], n⟩ [])
+  | .list [.atom "E", .str n] => some (.end_ ⟨[], n⟩)
+  | .list [.atom "T", .str s] => some (.text s false)
+  | _ => none
+
+def evOut : Event → Sexp
+  | .start t _ => .list [.atom "S", .str t.loc]
+  | .end_ t => .list [.atom "E", .str t.loc]
+  | .text s _ => .list [.atom "T", .str s]
+  | _ => .atom "other"
+
+def sel? : List Sexp → Option Sel
+  | [.atom "dot"] => some .self
+  | [.atom "node"] => some .node
+  | [.atom "elems"] => some .elems
+  | [.atom "text"] => some .text
+  | [.atom "nodeText"] => some .nodeText
+  | [.atom "named", .str n] => some (.named n)
+  | _ => none
+
+def bitem? : Sexp → Option BItem
+  | .list (.atom "SEL" :: r) => (sel? r).map .sel
+  | x => (ev? x).map .ev
+
+def optNat? : Sexp → Option (Option Nat)
+  | .atom "N" => some none
+  | x => x.toNat?.map some
+
+def optName? : Sexp → Option (Option Str)
+  | .atom "N" => some none
+  | .str s => some (some s)
+  | _ => none
+
+def spec? : Sexp → Option PathSpec
+  | .list [.atom "one", n, p] => do
+      let n ← optName? n; let p ← optNat? p; pure (.single n p)
+  | .list [.atom "chain", .list fs] => do
+      let fs ← fs.mapM fun
+        | .list ns => ns.mapM Sexp.toStr?
+        | _ => none
+      pure (.simple fs)
+  | _ => none
+
+def item? : Sexp → Option (Item PSt)
+  | .list [.atom "REG", spec, .list body, b, o, r] => do
+      let spec ← spec? spec
+      let body ← body.mapM bitem?
+      let b ← b.toBool?; let o ← o.toBool?; let r ← r.toBool?
+      pure (.reg (mkMT spec body b o r))
+  | x => (ev? x).map .ev
+
+def allBuffered : List (Item PSt) → Bool
+  | [] => true
+  | .reg t :: r => t.buffered && allBuffered r
+  | _ :: r => allBuffered r
+
+def handle : List Sexp → Option Sexp
+  | [.atom "run", fuel, .list items] => do
+      let fuel ← fuel.toNat?
+      let items ← items.mapM item?
+      if !allBuffered items then pure (.atom "unmodelled") else
+      match render fuel items with
+      | some out => pure (.list [.atom "ok", .list (out.map evOut)])
+      | none => pure (.list [.atom "err", .atom "fuel"])
+  | _ => none
 
 end Driver.C12
